@@ -135,6 +135,8 @@ def check_c03(prog, rep, tier, cfg):
     # C03.d — second wrapping pass measures what the first pass left
     layout.zeroing_after_wrapping(prog, rep, "C03.d")
     layout.rewrite_is_reported(prog, rep, "C03.d")
+    # C03.g — the first wrapping pass, the refresh before the second one and the multi-line measure use one unit of width
+    layout.width_measures_agree(prog, rep, "C03.g")
     layout.check_c09(prog, AliasReport(rep, [("C09.d", r".", "C03.d")]), tier, cfg)
     # C03.f — measurements memoised by the first wrapping pass do not outlive the text they were taken from (shared with C11.d; 1 known finding)
     layout.check_c11(prog, AliasReport(rep, [("C11.d", r".", "C03.f")]), tier, cfg)
